@@ -530,6 +530,7 @@ def streams(tier, rng):
                compare=lambda i, m: i.split(" #T")[0] == m, hist=im_hist),
         Stream("tree-retain", "retain", rt, nontrivial=nt_retain, model_input=retain_model_input,
                compare=lambda i, m: i.split(" #U")[0] == m.split(" #N")[0], hist=rt_hist),
+        E.rcfg_stream(Stream, run_lines, tier, rng, corpus_lines("C13-rcfg")),
         Stream("e2e-real-binary-filters", "e2e", e2e, nontrivial=nt_e2e, model_input=e2e_model_input,
                impl_runner=e2e_impl_runner(ctx), compare=lambda i, m: i.split(" #U")[0] == m, hist=e2e_hist,
                describe="hx-select-e2e (real #[divan::bench] items) run three times per case: test mode (RAN log), "
